@@ -5,6 +5,7 @@ import (
 	"math"
 	"math/rand"
 	"sort"
+	"time"
 
 	wt "github.com/hnakamur/whispertool"
 
@@ -32,7 +33,7 @@ func (c03) Meta() fw.Meta {
 			"'supplied last' = greatest (timestamp, supply index) among the points of one slot (batches are time-ordered first; DESIGN.md section 1.5)",
 			"future-dated points in batches are outside the property's quantifier and are not generated",
 		},
-		Obligations: []string{"single_accept_at_boundary", "single_reject_at_boundary", "single_reject_future", "batch_one_stale_plus_fresh", "batch_only_old", "batch_equal_timestamp_dups", "batch_multi_ts_same_slot", "batch_lap_collision", "batch_dropped_points", "batch_stored_points", "permutation_twins_compared", "best_routed_to_coarser", "empty_batch"},
+		Obligations: []string{"single_accept_at_boundary", "single_reject_at_boundary", "single_reject_future", "batch_one_stale_plus_fresh", "batch_only_old", "batch_equal_timestamp_dups", "batch_multi_ts_same_slot", "batch_lap_collision", "batch_dropped_points", "batch_stored_points", "permutation_twins_compared", "best_routed_to_coarser", "empty_batch", "wrapper_update_calls", "wrapper_updatemany_calls"},
 	}
 }
 
@@ -113,7 +114,17 @@ func (c03) Run(c *fw.Ctx) {
 			}
 			bits := genValueBits(r, false)
 			pre := s.raw
-			err := s.db.UpdatePointForArchive(tg, u32(t), wt.Value(math.Float64frombits(bits)), u32(s.now))
+			var err error
+			if tg == -1 && r.Intn(2) == 0 {
+				// the Update() convenience wrapper reads the library's settable clock
+				n := s.now
+				wt.Now = func() time.Time { return time.Unix(n, 0) }
+				err = s.db.Update(u32(t), wt.Value(math.Float64frombits(bits)))
+				wt.Now = time.Now
+				c.Count("wrapper_update_calls", 1)
+			} else {
+				err = s.db.UpdatePointForArchive(tg, u32(t), wt.Value(math.Float64frombits(bits)), u32(s.now))
+			}
 			post, rerr := rawOf(s.db)
 			if rerr != nil {
 				panic(rerr)
@@ -276,7 +287,15 @@ func (c03) Run(c *fw.Ctx) {
 		pre := s.raw
 		op := Op{Kind: "batch", Arch: named, Pts: pts, Now: s.now}
 		detail := fw.J{"layout": l, "now": s.now, "batch": op, "pre_ops": ops}
-		err = s.db.UpdatePointsForArchive(toPoints(pts), named, u32(s.now))
+		if named == -1 && r.Intn(2) == 0 {
+			n := s.now
+			wt.Now = func() time.Time { return time.Unix(n, 0) }
+			err = s.db.UpdateMany(toPoints(pts))
+			wt.Now = time.Now
+			c.Count("wrapper_updatemany_calls", 1)
+		} else {
+			err = s.db.UpdatePointsForArchive(toPoints(pts), named, u32(s.now))
+		}
 		if err != nil {
 			c.Violationf("batch-error", detail, "batch update returned an error: %v", err)
 			twin.Close()
